@@ -259,9 +259,10 @@ Proof.
   - apply zone_start_not_dot. exact H.
 Qed.
 
-Theorem parse_render cfg a r :
+(* the alternatives of parse_timestamp (before the instant is re-created): the library's pair *)
+Theorem parse_alt_render cfg a r :
   cfg_wf cfg -> ast_wf a -> sep_okb a r = true -> spec_in_rangeb cfg a = true ->
-  exists z, parse_ts cfg (render a ++ r) = Some (z, r) /\
+  exists z, parse_ts_alt cfg (render a ++ r) = Some (z, ast_zone cfg a, r) /\
             jts_inst (z_ts z) = spec_inst cfg a /\ z_off z = spec_off cfg a /\
             civil_to_jts (ast_civil cfg a) (ast_conv_off cfg a) = Some (z_ts z).
 Proof.
@@ -270,12 +271,12 @@ Proof.
   destruct a as [y m d|y m d h mi s f|y m d h mi s f z]; cbn [ast_wfb] in W.
   - (* date only *)
     destruct (date_wfb_unfold _ _ _ W) as (Hy & Hm & Hd & V).
-    cbn [render]. unfold parse_ts. rewrite (p_date_render y m d r W).
-    assert (option_map (fun z => (z, r)) (get_offset_date cfg y m d) =
-            option_map (fun z => (z, r)) (to_zoned (cfg_zone cfg) (ast_civil cfg (TsDate y m d)))) as E by reflexivity.
+    cbn [render ast_zone]. unfold parse_ts_alt. rewrite (p_date_render y m d r W). cbv zeta.
+    assert (zoned_with (cfg_zone cfg) (get_offset_date cfg y m d) r =
+            zoned_with (cfg_zone cfg) (to_zoned (cfg_zone cfg) (ast_civil cfg (TsDate y m d))) r) as E by reflexivity.
     destruct (to_zoned_spec (cfg_zone cfg) (ast_civil cfg (TsDate y m d))) as (zd & Hz & Hi & Ho & Hc);
       [cbn; lia|cbn [ast_civil cv_ns]; unfold NS; lia|exact R|].
-    exists zd. rewrite Hz in E. cbn [option_map] in E.
+    exists zd. rewrite Hz in E. cbn [zoned_with option_map] in E.
     split; [|split; [exact Hi|]].
     + destruct r as [|c r2]; [exact E|]. cbn [sep_okb head_is] in S. apply negb_true_iff in S.
       rewrite S. exact E.
@@ -284,7 +285,7 @@ Proof.
     apply andb_true_iff in W. destruct W as [W Wf]. apply andb_true_iff in W. destruct W as [Wd Wt].
     apply frac_wfb_wf in Wf.
     destruct (date_wfb_unfold _ _ _ Wd) as (Hy & Hm & Hd & V).
-    cbn [render]. rewrite <- app_assoc. unfold parse_ts. rewrite (p_date_render y m d _ Wd).
+    cbn [render ast_zone]. rewrite <- app_assoc. unfold parse_ts_alt. rewrite (p_date_render y m d _ Wd). cbv zeta.
     unfold render_time. cbn [app]. rewrite N.eqb_refl. repeat (rewrite <- app_assoc; cbn [app]).
     assert (frac_sep f r) as Fs.
     { destruct f as [ds|]; cbn [sep_okb frac_sep] in *.
@@ -311,7 +312,7 @@ Proof.
     apply andb_true_iff in W. destruct W as [W Wz]. apply andb_true_iff in W. destruct W as [W Wf].
     apply andb_true_iff in W. destruct W as [Wd Wt]. apply frac_wfb_wf in Wf.
     destruct (date_wfb_unfold _ _ _ Wd) as (Hy & Hm & Hd & V).
-    cbn [render]. rewrite <- !app_assoc. unfold parse_ts. rewrite (p_date_render y m d _ Wd).
+    cbn [render ast_zone]. rewrite <- !app_assoc. unfold parse_ts_alt. rewrite (p_date_render y m d _ Wd). cbv zeta.
     unfold render_time. cbn [app]. rewrite N.eqb_refl. repeat (rewrite <- app_assoc; cbn [app]).
     rewrite (p_time_render h mi s f _ Wt Wf (frac_sep_zone f z r)).
     pose proof (spec_frac_bounds f Wf) as Hf.
@@ -327,6 +328,238 @@ Proof.
         rewrite N.eqb_refl. cbn [orb]. rewrite (p_offset_render true hh mm r Wz). rewrite Hz. reflexivity.
       * change ((ch_plus =? ch_Z)%N) with false. rewrite N.eqb_refl. cbn [orb].
         rewrite (p_offset_render false hh mm r Wz). rewrite Hz. reflexivity.
+Qed.
+
+(* ------------------------------------------------------------------ canonical pairs *)
+Lemma ts_normal_unfold t : ts_normal t <->
+  Z.abs (j_ns t) < NS /\ (j_sec t <= 0 \/ 0 <= j_ns t) /\ (0 <= j_sec t \/ j_ns t <= 0).
+Proof.
+  unfold ts_normal, ts_normalb. rewrite !andb_true_iff, !orb_true_iff, Z.ltb_lt, !Z.leb_le. tauto.
+Qed.
+
+(* what from_nanosecond builds is sign-consistent and denotes the given instant *)
+Lemma ts_canon_normal i : ts_normal (ts_canon i) /\ jts_inst (ts_canon i) = i.
+Proof.
+  unfold ts_canon, jts_inst. cbn [j_sec j_ns]. pose proof (Z.quot_rem' i NS) as E. split; [|lia].
+  apply ts_normal_unfold. cbn [j_sec j_ns]. unfold NS in *.
+  destruct (Z_le_gt_dec 0 i) as [P|P].
+  - pose proof (Z.rem_bound_pos_pos i 1000000000 ltac:(lia) P). pose proof (Z.quot_pos i 1000000000 P ltac:(lia)). lia.
+  - pose proof (Z.rem_bound_pos_neg i 1000000000 ltac:(lia) ltac:(lia)).
+    pose proof (Z.mul_quot_ge i 1000000000 ltac:(lia) ltac:(lia)). lia.
+Qed.
+
+(* a canonical pair is determined by its instant: it IS the quotient/remainder pair *)
+Lemma ts_normal_canon t : ts_normal t -> t = ts_canon (jts_inst t).
+Proof.
+  intros H. apply ts_normal_unfold in H. destruct t as [s n]. unfold ts_canon, jts_inst, NS in *. cbn [j_sec j_ns] in *.
+  destruct (Z_le_gt_dec 0 (s * 1000000000 + n)) as [P|P].
+  - assert (0 <= n < 1000000000) as Hn by lia.
+    rewrite <- (Z.quot_unique (s * 1000000000 + n) 1000000000 s n P Hn ltac:(lia)).
+    rewrite <- (Z.rem_unique (s * 1000000000 + n) 1000000000 s n P Hn ltac:(lia)). reflexivity.
+  - assert (0 <= - n < 1000000000) as Hn by lia.
+    assert (s * 1000000000 + n = - (- s * 1000000000 + - n)) as E by lia. rewrite E.
+    rewrite Z.quot_opp_l, Z.rem_opp_l by lia.
+    rewrite <- (Z.quot_unique (- s * 1000000000 + - n) 1000000000 (- s) (- n) ltac:(lia) Hn ltac:(lia)).
+    rewrite <- (Z.rem_unique (- s * 1000000000 + - n) 1000000000 (- s) (- n) ltac:(lia) Hn ltac:(lia)).
+    f_equal; lia.
+Qed.
+
+Theorem ts_canonical_unique a b : ts_normal a -> ts_normal b -> jts_inst a = jts_inst b -> a = b.
+Proof. intros Ha Hb E. rewrite (ts_normal_canon a Ha), (ts_normal_canon b Hb), E. reflexivity. Qed.
+
+(* on canonical pairs the library's comparison is the comparison of instants ... *)
+Lemma jts_cmp_normal a b : ts_normal a -> ts_normal b ->
+  jts_cmp a b = Z.compare (jts_inst a) (jts_inst b).
+Proof.
+  intros Ha Hb. apply ts_normal_unfold in Ha, Hb. unfold jts_cmp, jts_inst, cmp_then, NS in *.
+  destruct (Z.compare_spec (j_sec a) (j_sec b)) as [E|L|G].
+  - rewrite E. destruct (Z.compare_spec (j_ns a) (j_ns b)); symmetry;
+      [apply Z.compare_eq_iff|apply Z.compare_lt_iff|apply Z.compare_gt_iff]; lia.
+  - symmetry. apply Z.compare_lt_iff. lia.
+  - symmetry. apply Z.compare_gt_iff. lia.
+Qed.
+
+(* ... and the library's equality is equality of instants *)
+Lemma jts_eqb_normal a b : ts_normal a -> ts_normal b ->
+  jts_eqb a b = (jts_inst a =? jts_inst b).
+Proof.
+  intros Ha Hb. destruct (jts_inst a =? jts_inst b) eqn:E.
+  - apply Z.eqb_eq in E. rewrite (ts_canonical_unique a b Ha Hb E). unfold jts_eqb. rewrite !Z.eqb_refl. reflexivity.
+  - apply Z.eqb_neq in E. unfold jts_eqb. destruct ((j_sec a =? j_sec b) && (j_ns a =? j_ns b)) eqn:F; [|reflexivity].
+    apply andb_true_iff in F. rewrite !Z.eqb_eq in F. exfalso. apply E. unfold jts_inst. destruct F as [-> ->]. reflexivity.
+Qed.
+
+Theorem canonical_order_is_instant_order a b : ts_normal a -> ts_normal b ->
+  jts_cmp a b = Z.compare (jts_inst a) (jts_inst b) /\
+  jts_eqb a b = (jts_inst a =? jts_inst b) /\
+  (jts_eqb a b = true <-> a = b).
+Proof.
+  intros Ha Hb. split; [exact (jts_cmp_normal a b Ha Hb)|]. split; [exact (jts_eqb_normal a b Ha Hb)|].
+  rewrite (jts_eqb_normal a b Ha Hb), Z.eqb_eq. split; [apply ts_canonical_unique; assumption|intros ->; reflexivity].
+Qed.
+
+(* ------------------------------------------------------------------ the re-creation step *)
+(* from_nanosecond yields the canonical pair of the number it is given *)
+Lemma from_nanosecond_canon n t : jts_from_nanosecond n = Some t -> t = ts_canon n.
+Proof.
+  unfold jts_from_nanosecond. destruct ((TS_MIN_SEC * NS <=? n) && (n <=? TS_MAX_SEC * NS + 999999999)); [|discriminate].
+  intros E. inversion E. reflexivity.
+Qed.
+
+Lemma jts_renorm_normal t t' : jts_renorm t = Some t' -> ts_normal t'.
+Proof. unfold jts_renorm. intros E. rewrite (from_nanosecond_canon _ _ E). apply ts_canon_normal. Qed.
+
+(* every pair the library can hold is accepted by the re-creation (its error branch is dead) *)
+Lemma jts_renorm_total t : TS_MIN_SEC <= j_sec t <= TS_MAX_SEC -> Z.abs (j_ns t) < NS ->
+  exists t', jts_renorm t = Some t'.
+Proof.
+  intros Hs Hn. unfold jts_renorm, jts_from_nanosecond, jts_as_nanosecond.
+  match goal with |- exists _, (if ?c then _ else _) = _ => assert (c = true) as -> end; [|eexists; reflexivity].
+  apply andb_true_iff. rewrite !Z.leb_le.
+  destruct ((j_sec t =? TS_MIN_SEC) && (j_ns t <? 0)) eqn:C.
+  - unfold TS_MIN_SEC, TS_MAX_SEC, NS. lia.
+  - apply andb_false_iff in C. rewrite Z.eqb_neq, Z.ltb_ge in C. unfold jts_inst, TS_MIN_SEC, TS_MAX_SEC, NS in *. lia.
+Qed.
+
+(* not below the smallest instant: the instant is kept *)
+Lemma jts_renorm_inst t t' : TS_MIN_SEC * NS <= jts_inst t -> Z.abs (j_ns t) < NS ->
+  jts_renorm t = Some t' -> jts_inst t' = jts_inst t /\ ts_normal t' /\ t' = ts_canon (jts_inst t).
+Proof.
+  intros Hi Hn E. pose proof (jts_renorm_normal _ _ E) as N. unfold jts_renorm in E.
+  assert (jts_as_nanosecond t = jts_inst t) as A.
+  { unfold jts_as_nanosecond. destruct ((j_sec t =? TS_MIN_SEC) && (j_ns t <? 0)) eqn:C; [|reflexivity].
+    apply andb_true_iff in C. rewrite Z.eqb_eq, Z.ltb_lt in C. unfold jts_inst, NS in *. lia. }
+  rewrite A in E. apply from_nanosecond_canon in E. subst t'.
+  split; [apply ts_canon_normal|]. split; [exact N|reflexivity].
+Qed.
+
+(* the pairs civil_to_jts builds are inside the library's ranges *)
+Lemma civil_to_jts_range c off t : 0 <= cv_ns c < NS -> civil_to_jts c off = Some t ->
+  TS_MIN_SEC <= j_sec t <= TS_MAX_SEC /\ Z.abs (j_ns t) < NS.
+Proof.
+  intros Hn. unfold civil_to_jts.
+  destruct ((ts_epoch_day (cv_y c) (cv_m c) (cv_d c) <? 0) && negb (cv_ns c =? 0)) eqn:D; cbn [j_sec j_ns];
+  match goal with |- (if ?b then _ else _) = _ -> _ => destruct b eqn:B end; intros E; inversion E; subst t;
+  cbn [j_sec j_ns]; apply andb_true_iff in B; rewrite !Z.leb_le in B; unfold NS in *; [|lia].
+  apply andb_true_iff in D. destruct D as [_ D]. apply negb_true_iff, Z.eqb_neq in D. lia.
+Qed.
+
+(* THE grammar theorem: the parser returns the canonical pair of "civil time minus offset" *)
+Theorem parse_render cfg a r :
+  cfg_wf cfg -> ast_wf a -> sep_okb a r = true -> spec_in_rangeb cfg a = true ->
+  exists z, parse_ts cfg (render a ++ r) = Some (z, r) /\
+            jts_inst (z_ts z) = spec_inst cfg a /\ z_off z = spec_off cfg a /\
+            z_ts z = ts_canon (spec_inst cfg a) /\ ts_normal (z_ts z) /\
+            exists t0, civil_to_jts (ast_civil cfg a) (ast_conv_off cfg a) = Some t0 /\ jts_renorm t0 = Some (z_ts z).
+Proof.
+  intros C W S R. destruct (parse_alt_render cfg a r C W S R) as (zd & P & I & O & Hc).
+  assert (0 <= cv_ns (ast_civil cfg a) < NS) as Hns.
+  { destruct C as [Ct _]. apply ts_time_ok_iff in Ct. unfold ast_wf in W.
+    destruct a as [y m d|y m d h mi s f|y m d h mi s f z0]; cbn [ast_wfb ast_civil cv_ns] in *; unfold NS.
+    - lia.
+    - rewrite !andb_true_iff in W. destruct W as [_ Wf]. apply frac_wfb_wf in Wf. pose proof (spec_frac_bounds f Wf). lia.
+    - rewrite !andb_true_iff in W. destruct W as [[_ Wf] _]. apply frac_wfb_wf in Wf. pose proof (spec_frac_bounds f Wf). lia. }
+  destruct (civil_to_jts_range _ _ _ Hns Hc) as [Hs Hn].
+  destruct (jts_renorm_total (z_ts zd) Hs Hn) as [t' Ht].
+  apply in_range_unfold in R.
+  destruct (jts_renorm_inst (z_ts zd) t' ltac:(rewrite I; lia) Hn Ht) as (I' & N' & Cn).
+  exists (ts_to_zoned (ast_zone cfg a) t').
+  split; [unfold parse_ts; rewrite P; unfold ts_renorm; rewrite Ht; reflexivity|].
+  unfold ts_to_zoned. cbn [z_ts z_off].
+  split; [congruence|]. split.
+  - rewrite I', I. destruct a as [y m d|y m d h mi s f|y m d h mi s f z0]; cbn [ast_zone spec_off]; try reflexivity;
+      destruct (cfg_zone cfg); reflexivity.
+  - split; [rewrite Cn, I; reflexivity|]. split; [exact N'|]. exists (z_ts zd). split; [exact Hc|exact Ht].
+Qed.
+
+(* every time stamp the parser returns, for every configuration and every text, is a canonical
+   pair *)
+Theorem parsed_canonical cfg s z r : parse_ts cfg s = Some (z, r) ->
+  ts_normal (z_ts z) /\ z_ts z = ts_canon (jts_inst (z_ts z)).
+Proof.
+  unfold parse_ts. destruct (parse_ts_alt cfg s) as [[[zd tz] r0]|]; [|discriminate].
+  unfold ts_renorm. destruct (jts_renorm (z_ts zd)) as [t'|] eqn:E; [|discriminate].
+  cbn [option_map]. intros H. inversion H. subst. unfold ts_to_zoned. cbn [z_ts].
+  pose proof (jts_renorm_normal _ _ E) as N. split; [exact N|apply ts_normal_canon; exact N].
+Qed.
+
+(* the re-creation never refuses what the alternatives accepted: parse_timestamp accepts
+   exactly the texts it accepted before, with the same rest, offset and instant *)
+Lemma p_time_ns s h mi sec ns r : p_time s = Some (h, mi, sec, ns, r) -> 0 <= ns < NS.
+Proof.
+  unfold p_time.
+  destruct (take_digits 2 s 0) as [[h0 s1]|]; [|discriminate].
+  destruct (expect ch_colon s1) as [s2|]; [|discriminate].
+  destruct (take_digits 2 s2 0) as [[mi0 s3]|]; [|discriminate].
+  destruct (expect ch_colon s3) as [s4|]; [|discriminate].
+  destruct (take_digits 2 s4 0) as [[sec0 s5]|]; [|discriminate].
+  destruct (p_frac s5) as [[ns0 s6]|]; [|discriminate].
+  destruct (ts_time_ok h0 mi0 sec0 ns0) eqn:B; [|discriminate].
+  intros E. inversion E. subst. apply ts_time_ok_iff in B. unfold NS. lia.
+Qed.
+
+Lemma to_zoned_range z c zd : 0 <= cv_ns c < NS -> to_zoned z c = Some zd ->
+  TS_MIN_SEC <= j_sec (z_ts zd) <= TS_MAX_SEC /\ Z.abs (j_ns (z_ts zd)) < NS.
+Proof.
+  intros Hn. destruct z as [o|nz]; cbn [to_zoned];
+  match goal with |- option_map _ ?x = _ -> _ => destruct x as [t|] eqn:E end; try discriminate;
+  cbn [option_map]; intros H; inversion H; subst; cbn [z_ts]; exact (civil_to_jts_range _ _ _ Hn E).
+Qed.
+
+Lemma parse_ts_alt_range cfg s zd z r : cfg_wf cfg -> parse_ts_alt cfg s = Some (zd, z, r) ->
+  TS_MIN_SEC <= j_sec (z_ts zd) <= TS_MAX_SEC /\ Z.abs (j_ns (z_ts zd)) < NS.
+Proof.
+  intros [Ct _]. apply ts_time_ok_iff in Ct. unfold parse_ts_alt.
+  destruct (p_date s) as [[[[y m] d] r1]|]; [|discriminate]. cbv zeta.
+  assert (forall r', zoned_with (cfg_zone cfg) (get_offset_date cfg y m d) r' = Some (zd, z, r) ->
+          TS_MIN_SEC <= j_sec (z_ts zd) <= TS_MAX_SEC /\ Z.abs (j_ns (z_ts zd)) < NS) as Hd.
+  { intros r'. unfold zoned_with, get_offset_date.
+    match goal with |- option_map _ ?x = _ -> _ => destruct x as [zd0|] eqn:E end; [|discriminate].
+    cbn [option_map]. intros H. inversion H. subst.
+    eapply to_zoned_range; [|exact E]. cbn [cv_ns]. unfold NS. lia. }
+  destruct r1 as [|c r2]; [apply Hd|].
+  destruct (c =? ch_T)%N; [|apply Hd].
+  destruct (p_time r2) as [[[[[h mi] sec] ns] r3]|] eqn:Pt; [|discriminate].
+  pose proof (p_time_ns _ _ _ _ _ _ Pt) as Hns.
+  assert (forall z' r', zoned_with z' (to_zoned z' (mkCivil y m d h mi sec ns)) r' = Some (zd, z, r) ->
+          TS_MIN_SEC <= j_sec (z_ts zd) <= TS_MAX_SEC /\ Z.abs (j_ns (z_ts zd)) < NS) as Hz.
+  { intros z' r'. unfold zoned_with.
+    match goal with |- option_map _ ?x = _ -> _ => destruct x as [zd0|] eqn:E end; [|discriminate].
+    cbn [option_map]. intros H. inversion H. subst. eapply to_zoned_range; [|exact E]. exact Hns. }
+  unfold get_offset_datetime.
+  destruct r3 as [|c3 r4]; [apply Hz|].
+  destruct (c3 =? ch_Z)%N; [apply Hz|].
+  destruct ((c3 =? ch_plus)%N || (c3 =? ch_minus)%N); [|apply Hz].
+  destruct (p_offset _ r4) as [[off r5]|]; [apply Hz|discriminate].
+Qed.
+
+Theorem renorm_accepts_same cfg s : cfg_wf cfg ->
+  (parse_ts cfg s = None <-> parse_ts_alt cfg s = None) /\
+  forall zd z r, parse_ts_alt cfg s = Some (zd, z, r) ->
+    exists zn, parse_ts cfg s = Some (zn, r) /\ jts_renorm (z_ts zd) = Some (z_ts zn) /\ ts_normal (z_ts zn) /\
+               (TS_MIN_SEC * NS <= jts_inst (z_ts zd) -> jts_inst (z_ts zn) = jts_inst (z_ts zd) /\ z_off zn = z_off (ts_to_zoned z (z_ts zd))).
+Proof.
+  intros C.
+  assert (forall zd z r, parse_ts_alt cfg s = Some (zd, z, r) ->
+    exists zn, parse_ts cfg s = Some (zn, r) /\ jts_renorm (z_ts zd) = Some (z_ts zn) /\ ts_normal (z_ts zn) /\
+               (TS_MIN_SEC * NS <= jts_inst (z_ts zd) -> jts_inst (z_ts zn) = jts_inst (z_ts zd) /\ z_off zn = z_off (ts_to_zoned z (z_ts zd)))) as H.
+  { intros zd z r P. destruct (parse_ts_alt_range _ _ _ _ _ C P) as [Hs Hn].
+    destruct (jts_renorm_total _ Hs Hn) as [t' Ht].
+    exists (ts_to_zoned z t'). unfold parse_ts. rewrite P. unfold ts_renorm. rewrite Ht. cbn [option_map].
+    split; [reflexivity|]. unfold ts_to_zoned at 1 2. cbn [z_ts]. split; [reflexivity|].
+    split; [exact (jts_renorm_normal _ _ Ht)|].
+    intros Hi. destruct (jts_renorm_inst _ _ Hi Hn Ht) as (I & _ & _). split; [exact I|].
+    unfold ts_to_zoned. cbn [z_off]. rewrite I. reflexivity. }
+  split; [|exact H]. split.
+  - intros E. destruct (parse_ts_alt cfg s) as [[[zd z] r]|] eqn:P; [|reflexivity].
+    destruct (H zd z r eq_refl) as (zn & Pn & _). congruence.
+  - intros E. unfold parse_ts. rewrite E. reflexivity.
+Qed.
+
+Theorem parsed_whole_canonical cfg s z : parse_ts_whole cfg s = Some z -> ts_normal (z_ts z).
+Proof.
+  unfold parse_ts_whole. destruct (parse_ts cfg s) as [[z0 [|c r]]|] eqn:E; try discriminate.
+  intros H. inversion H. subst. exact (proj1 (parsed_canonical _ _ _ _ E)).
 Qed.
 
 (* ------------------------------------------------------------------ C16_offset_notation *)
@@ -403,24 +636,8 @@ Proof.
 Qed.
 
 (* ------------------------------------------------------------------ ordering *)
-Lemma ts_normal_unfold t : ts_normal t ->
-  Z.abs (j_ns t) < NS /\ (j_sec t <= 0 \/ 0 <= j_ns t) /\ (0 <= j_sec t \/ j_ns t <= 0).
-Proof.
-  unfold ts_normal, ts_normalb. rewrite !andb_true_iff, !orb_true_iff, Z.ltb_lt, !Z.leb_le. tauto.
-Qed.
-
-(* on sign-consistent pairs the library's comparison is the comparison of instants *)
-Lemma jts_cmp_normal a b : ts_normal a -> ts_normal b ->
-  jts_cmp a b = Z.compare (jts_inst a) (jts_inst b).
-Proof.
-  intros Ha Hb. apply ts_normal_unfold in Ha, Hb. unfold jts_cmp, jts_inst, cmp_then, NS in *.
-  destruct (Z.compare_spec (j_sec a) (j_sec b)) as [E|L|G].
-  - rewrite E. destruct (Z.compare_spec (j_ns a) (j_ns b)); symmetry;
-      [apply Z.compare_eq_iff|apply Z.compare_lt_iff|apply Z.compare_gt_iff]; lia.
-  - symmetry. apply Z.compare_lt_iff. lia.
-  - symmetry. apply Z.compare_gt_iff. lia.
-Qed.
-
+(* the library layer alone: outside the class epoch_mixedb the pair civil_to_jts builds is
+   already canonical (inside it, it is not: jiff_layer_refuted) *)
 Lemma civil_to_jts_normal c off t : 1 <= cv_m c <= 12 -> 0 <= cv_ns c < NS ->
   epoch_mixedb c off = false -> civil_to_jts c off = Some t -> ts_normal t.
 Proof.
@@ -440,72 +657,87 @@ Proof.
     rewrite ?Z.leb_gt, ?Z.ltb_ge in M; lia.
 Qed.
 
-(* outside the class of F17 the parsed representation is normal ... *)
-Theorem parse_normal cfg a r :
-  cfg_wf cfg -> ast_wf a -> sep_okb a r = true -> spec_in_rangeb cfg a = true -> epoch_safe cfg a ->
-  exists z, parse_ts cfg (render a ++ r) = Some (z, r) /\ jts_inst (z_ts z) = spec_inst cfg a /\ ts_normal (z_ts z).
-Proof.
-  intros C W S R E. destruct (parse_render cfg a r C W S R) as (z & P & I & _ & Hc).
-  exists z. split; [exact P|]. split; [exact I|].
-  destruct C as [Ct _]. apply ts_time_ok_iff in Ct. unfold ast_wf in W.
-  apply (civil_to_jts_normal (ast_civil cfg a) (ast_conv_off cfg a)); [| |exact E|exact Hc].
-  - destruct a; cbn [ast_wfb ast_civil cv_m] in *; rewrite ?andb_true_iff in W;
-      match goal with H : context [date_wfb ?y ?m ?d] |- _ =>
-        assert (date_wfb y m d = true) as Wd by tauto; destruct (date_wfb_unfold _ _ _ Wd) as (_ & Hm & _) end; exact Hm.
-  - destruct a as [y m d|y m d h mi s f|y m d h mi s f z0]; cbn [ast_wfb ast_civil cv_ns] in *; unfold NS.
-    + lia.
-    + rewrite !andb_true_iff in W. destruct W as [_ Wf]. apply frac_wfb_wf in Wf. pose proof (spec_frac_bounds f Wf). lia.
-    + rewrite !andb_true_iff in W. destruct W as [[_ Wf] _]. apply frac_wfb_wf in Wf. pose proof (spec_frac_bounds f Wf). lia.
-Qed.
-
-(* ... so transactions are ordered by instant whatever notation was used *)
+(* transactions are ordered by instant, and equal by instant, whatever notation was used and
+   wherever the time stamps lie (no exception next to the epoch) *)
 Theorem order_by_instant cfg a1 a2 r1 r2 :
   cfg_wf cfg -> ast_wf a1 -> ast_wf a2 -> sep_okb a1 r1 = true -> sep_okb a2 r2 = true ->
   spec_in_rangeb cfg a1 = true -> spec_in_rangeb cfg a2 = true ->
-  epoch_safe cfg a1 -> epoch_safe cfg a2 ->
   exists z1 z2, parse_ts cfg (render a1 ++ r1) = Some (z1, r1) /\ parse_ts cfg (render a2 ++ r2) = Some (z2, r2) /\
     jts_cmp (z_ts z1) (z_ts z2) = Z.compare (spec_inst cfg a1) (spec_inst cfg a2) /\
+    jts_eqb (z_ts z1) (z_ts z2) = (spec_inst cfg a1 =? spec_inst cfg a2) /\
     forall h1 h2, jheader_cmp (z_ts z1) h1 (z_ts z2) h2 = header_cmp (hdr_of z1 h1) (hdr_of z2 h2).
 Proof.
-  intros C W1 W2 S1 S2 R1 R2 E1 E2.
-  destruct (parse_normal cfg a1 r1 C W1 S1 R1 E1) as (z1 & P1 & I1 & N1).
-  destruct (parse_normal cfg a2 r2 C W2 S2 R2 E2) as (z2 & P2 & I2 & N2).
+  intros C W1 W2 S1 S2 R1 R2.
+  destruct (parse_render cfg a1 r1 C W1 S1 R1) as (z1 & P1 & I1 & _ & _ & N1 & _).
+  destruct (parse_render cfg a2 r2 C W2 S2 R2) as (z2 & P2 & I2 & _ & _ & N2 & _).
   exists z1, z2. split; [exact P1|]. split; [exact P2|].
   pose proof (jts_cmp_normal _ _ N1 N2) as J. split; [rewrite J, I1, I2; reflexivity|].
+  split; [rewrite (jts_eqb_normal _ _ N1 N2), I1, I2; reflexivity|].
   intros h1 h2. unfold jheader_cmp, header_cmp, hdr_of. cbn [h_inst h_code h_desc h_uuid]. rewrite J. reflexivity.
 Qed.
 
-(* the full statement is false for the code as it is (finding F17): near the epoch a later
-   instant is ordered first, and two spellings of one instant are unequal *)
+(* the same for ANY two texts the parser accepts (no grammar hypotheses at all) *)
+Theorem parsed_order_by_instant cfg s1 s2 z1 z2 r1 r2 :
+  parse_ts cfg s1 = Some (z1, r1) -> parse_ts cfg s2 = Some (z2, r2) ->
+  jts_cmp (z_ts z1) (z_ts z2) = Z.compare (jts_inst (z_ts z1)) (jts_inst (z_ts z2)) /\
+  jts_eqb (z_ts z1) (z_ts z2) = (jts_inst (z_ts z1) =? jts_inst (z_ts z2)) /\
+  forall h1 h2, jheader_cmp (z_ts z1) h1 (z_ts z2) h2 = header_cmp (hdr_of z1 h1) (hdr_of z2 h2).
+Proof.
+  intros P1 P2. pose proof (proj1 (parsed_canonical _ _ _ _ P1)) as N1. pose proof (proj1 (parsed_canonical _ _ _ _ P2)) as N2.
+  pose proof (jts_cmp_normal _ _ N1 N2) as J. split; [exact J|]. split; [exact (jts_eqb_normal _ _ N1 N2)|].
+  intros h1 h2. unfold jheader_cmp, header_cmp, hdr_of. cbn [h_inst h_code h_desc h_uuid]. rewrite J. reflexivity.
+Qed.
+
+(* why the re-creation is needed: the library layer ALONE (the Zoned of the alternatives of
+   parse_timestamp, before the instant is re-created) orders a later instant first and holds
+   two spellings of one instant as unequal pairs, next to the epoch (the former finding F17) *)
 Definition w_cfg : tscfg := mkTsCfg 0 0 0 0 (ZFixed 0).
 Definition w_a1 : ts_ast := TsZoned 1970 1 1 0 0 0 (Some [53%N]) (ZOff false 1 0).   (* 1970-01-01T00:00:00.5+01:00 *)
 Definition w_a2 : ts_ast := TsZoned 1969 12 31 23 0 0 (Some [52%N]) ZZulu.           (* 1969-12-31T23:00:00.4Z *)
 Definition w_a3 : ts_ast := TsZoned 1969 12 31 23 0 0 (Some [53%N]) ZZulu.           (* 1969-12-31T23:00:00.5Z *)
+(* the pairs the library builds for them *)
+Definition w_j1 : jts := mkJts (-3600) 500000000.          (* mixed sign *)
+Definition w_j2 : jts := mkJts (-3599) (-600000000).
+Definition w_j3 : jts := mkJts (-3599) (-500000000).
+(* the canonical pairs of the same instants *)
+Definition w_n1 : jts := mkJts (-3599) (-500000000).
+Definition w_n2 : jts := mkJts (-3599) (-600000000).
 
 Lemma w_cfg_wf : cfg_wf w_cfg.
 Proof. split; [reflexivity|]. cbn. unfold OFF_MAX. lia. Qed.
 
-Theorem order_refuted :
-  exists cfg a1 a2 z1 z2,
-    cfg_wf cfg /\ ast_wf a1 /\ ast_wf a2 /\ spec_in_rangeb cfg a1 = true /\ spec_in_rangeb cfg a2 = true /\
-    parse_ts cfg (render a1) = Some (z1, []) /\ parse_ts cfg (render a2) = Some (z2, []) /\
-    spec_inst cfg a2 < spec_inst cfg a1 /\ jts_cmp (z_ts z1) (z_ts z2) = Lt /\
-    ~ epoch_safe cfg a1.
+Theorem jiff_layer_refuted :
+  cfg_wf w_cfg /\ Forall ast_wf [w_a1; w_a2; w_a3] /\
+  Forall (fun a => spec_in_rangeb w_cfg a = true) [w_a1; w_a2; w_a3] /\
+  parse_ts_alt w_cfg (render w_a1) = Some (mkZoned w_j1 3600, ZFixed 3600, []) /\
+  parse_ts_alt w_cfg (render w_a2) = Some (mkZoned w_j2 0, ZFixed 0, []) /\
+  parse_ts_alt w_cfg (render w_a3) = Some (mkZoned w_j3 0, ZFixed 0, []) /\
+  (* a later instant, ordered first *)
+  spec_inst w_cfg w_a2 < spec_inst w_cfg w_a1 /\ jts_inst w_j2 < jts_inst w_j1 /\ jts_cmp w_j1 w_j2 = Lt /\
+  (* one instant, unequal and ordered *)
+  spec_inst w_cfg w_a1 = spec_inst w_cfg w_a3 /\ jts_inst w_j1 = jts_inst w_j3 /\
+  jts_eqb w_j1 w_j3 = false /\ jts_cmp w_j1 w_j3 = Lt /\
+  (* because the first pair is not canonical: it is in the class epoch_mixedb *)
+  ts_normalb w_j1 = false /\
+  epoch_mixedb (ast_civil w_cfg w_a1) (ast_conv_off w_cfg w_a1) = true.
 Proof.
-  exists w_cfg, w_a1, w_a2, (mkZoned (mkJts (-3600) 500000000) 3600), (mkZoned (mkJts (-3599) (-600000000)) 0).
   split; [exact w_cfg_wf|].
-  repeat match goal with |- _ /\ _ => split end; try (vm_compute; reflexivity). vm_compute. discriminate.
+  split; [repeat constructor|]. split; [repeat constructor|].
+  repeat match goal with |- _ /\ _ => split end; vm_compute; reflexivity.
 Qed.
 
-Theorem equality_refuted :
-  exists cfg a1 a3 z1 z3,
-    cfg_wf cfg /\ ast_wf a1 /\ ast_wf a3 /\
-    parse_ts cfg (render a1) = Some (z1, []) /\ parse_ts cfg (render a3) = Some (z3, []) /\
-    spec_inst cfg a1 = spec_inst cfg a3 /\ jts_eqb (z_ts z1) (z_ts z3) = false /\ jts_cmp (z_ts z1) (z_ts z3) = Lt.
-Proof.
-  exists w_cfg, w_a1, w_a3, (mkZoned (mkJts (-3600) 500000000) 3600), (mkZoned (mkJts (-3599) (-500000000)) 0).
-  split; [exact w_cfg_wf|]. repeat match goal with |- _ /\ _ => split end; vm_compute; reflexivity.
-Qed.
+(* the same witnesses through parse_timestamp as it is now: canonical pairs, the later instant
+   last, the two spellings of one instant equal (the very same pair) *)
+Theorem witnesses_repaired :
+  parse_ts w_cfg (render w_a1) = Some (mkZoned w_n1 3600, []) /\
+  parse_ts w_cfg (render w_a2) = Some (mkZoned w_n2 0, []) /\
+  parse_ts w_cfg (render w_a3) = Some (mkZoned w_n1 0, []) /\
+  jts_renorm w_j1 = Some w_n1 /\ jts_renorm w_j2 = Some w_n2 /\ jts_renorm w_j3 = Some w_n1 /\
+  ts_normalb w_n1 = true /\ ts_normalb w_n2 = true /\
+  jts_inst w_n1 = spec_inst w_cfg w_a1 /\ jts_inst w_n2 = spec_inst w_cfg w_a2 /\
+  jts_cmp w_n1 w_n2 = Gt /\ jts_cmp w_n2 w_n1 = Lt /\
+  jts_eqb w_n1 w_n1 = true /\ jts_cmp w_n1 w_n1 = Eq.
+Proof. repeat match goal with |- _ /\ _ => split end; vm_compute; reflexivity. Qed.
 
 (* ------------------------------------------------------------------ C16_fraction: printing *)
 Lemma strip_zeros_rev_repeat k l : strip_zeros_rev (repeat 48%N k ++ l) = strip_zeros_rev l.
@@ -642,11 +874,31 @@ Proof.
   rewrite (jts_cmp_normal _ _ Na Nb), Ia, Ib. reflexivity.
 Qed.
 
-(* with normal representations the implementation's sort is the sort by instant *)
+(* with canonical representations the implementation's sort is the sort by instant *)
 Theorem jsort_is_sort l : Forall jt_ok l -> map snd (jsort_txns l) = sort_txns (map snd l).
 Proof.
   intros F. unfold jsort_txns, sort_txns. apply sort_by_map.
   intros x y Hx Hy. rewrite Forall_forall in F. apply jtxn_leb_normal; apply F; assumption.
+Qed.
+
+(* a transaction as the implementation holds it after parsing: its time stamp is what
+   parse_timestamp returned for some text (under the configuration of the run), and the
+   header carries that Zoned *)
+Definition jt_parsed (cfg : tscfg) (jt : jts * txn) : Prop :=
+  exists s z r, parse_ts cfg s = Some (z, r) /\ fst jt = z_ts z /\ t_hdr (snd jt) = hdr_of z (t_hdr (snd jt)).
+
+Lemma jt_parsed_ok cfg jt : jt_parsed cfg jt -> jt_ok jt.
+Proof.
+  intros (s & z & r & P & E & H). split.
+  - rewrite E. exact (proj1 (parsed_canonical _ _ _ _ P)).
+  - rewrite H, E. reflexivity.
+Qed.
+
+(* so the sort of every parsed transaction set is the sort by instant: no hypothesis on the
+   representation, no excluded class *)
+Theorem jsort_parsed_is_sort cfg l : Forall (jt_parsed cfg) l -> map snd (jsort_txns l) = sort_txns (map snd l).
+Proof.
+  intros F. apply jsort_is_sort. eapply Forall_impl; [|exact F]. intros jt. apply jt_parsed_ok.
 Qed.
 
 (* ------------------------------------------------------------------ report zone: display only *)
@@ -703,7 +955,7 @@ Definition ex_a3 : ts_ast := TsLocal 2024 3 31 2 30 0 (Some [50; 53]%N).
 Definition ex_a4 : ts_ast := TsDate 2024 3 30.
 Lemma ts_example :
   cfg_wf ex_cfg /\ Forall ast_wf [ex_a1; ex_a2; ex_a3; ex_a4] /\
-  Forall (fun a => spec_in_rangeb ex_cfg a = true /\ epoch_safe ex_cfg a) [ex_a1; ex_a2; ex_a3; ex_a4] /\
+  Forall (fun a => spec_in_rangeb ex_cfg a = true) [ex_a1; ex_a2; ex_a3; ex_a4] /\
   map (fun a => option_map (fun zr => (jts_inst (z_ts (fst zr)), z_off (fst zr), snd zr)) (parse_ts ex_cfg (render a)))
       [ex_a1; ex_a2; ex_a3; ex_a4]
   = [Some (1711845000250000000, 10800, []); Some (1711845000250000000, 0, []);
